@@ -1588,6 +1588,8 @@ fn parse_operators(input: Span) -> IResult<Span, Vec<Operator>> {
         )
         .map(|unknown_ids| {
             let is_agg = unknown_ids.len() > 1;
+            let first_range = unknown_ids.first().map(|i| i.to_range());
+            let mut reported = false;
             for i in unknown_ids {
                 if is_agg {
                     if VALID_AGGREGATES.contains(&i) {
@@ -1626,6 +1628,18 @@ fn parse_operators(input: Span) -> IResult<Span, Vec<Operator>> {
                     builder = builder.with_resolution(format!("{} is an inline operator, but only aggregate operators (count, average, etc.) are valid here", i));
                 }
                 builder.send_report();
+                reported = true;
+            }
+
+            if !reported {
+                // Every name is a valid operator, so it is the text around them that could not
+                // be parsed.  Never drop the stage without saying so.
+                input
+                    .extra
+                    .report_error_for("unrecognized syntax")
+                    .with_code_range(first_range.unwrap_or_else(|| input.to_range()), "")
+                    .with_resolution("Check the options and arguments given to this operator")
+                    .send_report();
             }
 
             Operator::Error
